@@ -126,6 +126,14 @@ Theorem C20_timedelta_roundtrip :
 Proof. exact timedelta_roundtrip_lemma. Qed.
 Print Assumptions C20_timedelta_roundtrip.
 
+(* the same through RegisteredType.deserializer (the wrapper that turns the listed deserializer_exceptions into
+   "not of type"), whether or not ArithmeticError / OverflowError is listed *)
+Theorem C20_timedelta_registered_roundtrip :
+  forall catches_overflow total, td_valid total = true ->
+    td_registered catches_overflow (PStr (td_str total)) = TdOk total.
+Proof. exact timedelta_registered_roundtrip_lemma. Qed.
+Print Assumptions C20_timedelta_registered_roundtrip.
+
 (* The two patterns timedelta_deserializer hands to re.match (translated from the function body on every
    run) succeed — some prefix of the text is in the language — exactly when the model's scanners succeed,
    for EVERY string: the round-trip theorem above speaks about the patterns of the source. *)
